@@ -28,6 +28,14 @@ func vnative() bool               { return false }
 func vconcretize(x int) int       { return x }
 func vfail(msg string)            {}
 func vthorough() bool             { return false }
+func vspawn(f func())             {}
+func vcallAnon(parent string, args ...interface{}) {}
+func vspawnDaemon(f func())       {}
+func vrunThreads()                {}
+func vyield()                     {}
+func vwait()                      {}
+func vthreadID() int              { return -1 }
+func vschedule() string           { return "" }
 func vuf32(tag string, d float64) float32 { return float32(d) }
 func vand(a, b bool) bool         { return a && b }
 func vor(a, b bool) bool          { return a || b }
@@ -215,6 +223,28 @@ func vnative() bool         { return true }
 func vconcretize(x int) int { return x }
 func vfail(msg string)      { fmt.Println("VFAIL " + msg) }
 func vthorough() bool       { return os.Getenv("VERIF_TIER") == "thorough" }
+
+// thread mode, native side: the threads run one after the other (one valid schedule); harnesses that need
+// a particular interleaving bring their own forced-schedule replay.
+var vThreads []func()
+
+func vspawn(f func())       { vThreads = append(vThreads, f) }
+func vspawnDaemon(f func()) {}
+func vrunThreads() {
+	ts := vThreads
+	vThreads = nil
+	for _, f := range ts {
+		f()
+	}
+}
+func vyield()           {}
+func vwait()            {}
+func vthreadID() int    { return -1 }
+func vschedule() string { return "" }
+func vcallAnon(parent string, args ...interface{}) {
+	fmt.Println("VDIVERGE vcallAnon is engine-only")
+	panic(vAssumeStop{})
+}
 func vuf32(tag string, d float64) float32 { return float32(d) }
 func vand(a, b bool) bool   { return a && b }
 func vor(a, b bool) bool    { return a || b }
